@@ -49,3 +49,42 @@ func Harness_C20_DatabaseUntidy() {
 	})
 	nd.Assert(label, !failed)
 }
+
+// Delta scripts between two versions of one table whose key columns come and go: each of
+// the columns id, x is absent, a plain column or a key column in either version (so the new
+// version may have no primary key at all, or the old one none). The command ends without a crash.
+//
+//verif:shard-quick 4 4
+//verif:shard-thorough 4 4
+func Harness_C20_DatabaseDeltaKeys() {
+	loc := func(l int) *sysl.SourceContext {
+		return &sysl.SourceContext{Start: &sysl.SourceContext_Location{Line: int32(l)}}
+	}
+	col := func(l int, state int) *sysl.Type {
+		t := &sysl.Type{Type: &sysl.Type_Primitive_{Primitive: sysl.Type_INT}, SourceContext: loc(l)}
+		if state == 2 {
+			t.Attrs = map[string]*sysl.Attribute{"patterns": {Attribute: &sysl.Attribute_A{A: &sysl.Attribute_Array{
+				Elt: []*sysl.Attribute{{Attribute: &sysl.Attribute_S{S: "pk"}}}}}}}
+		}
+		return t
+	}
+	version := func(tag string) *sysl.Application {
+		cols := map[string]*sysl.Type{"v": col(5, 1)}
+		if s := nd.IntRange(tag+".id", 0, 2); s > 0 {
+			cols["id"] = col(2, s)
+		}
+		if s := nd.IntRange(tag+".x", 0, 2); s > 0 {
+			cols["x"] = col(3, s)
+		}
+		return &sysl.Application{Types: map[string]*sysl.Type{
+			"ta": {Type: &sysl.Type_Relation_{Relation: &sysl.Type_Relation{AttrDefs: cols}}, SourceContext: loc(1)},
+		}}
+	}
+	oldApp := version("old")
+	newApp := version("new")
+	v := MakeDatabaseScriptView("t", nil)
+	failed, _ := nd.Recovered(func() {
+		_ = v.ProcessModSysls(map[string]*sysl.Application{"App": oldApp}, map[string]*sysl.Application{"App": newApp}, []string{"App"}, "out", "postgres")
+	})
+	nd.Assert("db-delta:keys-come-and-go-no-crash", !failed)
+}
